@@ -409,7 +409,10 @@ def valid_program(P):
 
 def f1_condition(P):
     """Structural condition of known finding F1 (false NegativeCycle): some ground rule whose head lies on a cycle of
-    the dependency graph negates an atom that depends on an atom lying on a cycle."""
+    the dependency graph, or is called (directly or not) from an atom on a cycle, negates an atom that depends on an
+    atom lying on a cycle — the negated goal's own cycle is detected while the outer cycle is still active and the
+    engine joins the two through the negation node (witness for the "called from" case:
+    p1 :- p1. p2 :- f2, \\+p1. p0 :- f0, p0. p0 :- f1, p2. query(p0).)."""
     rules, _ = reference(P)
     dep = {}
     for h, b, c in rules:
@@ -431,8 +434,12 @@ def f1_condition(P):
             memo[a] = reach(a)
         return memo[a]
     oncycle = {a for a in dep if a in R(a)}
+    # heads that can be evaluated while a positive cycle is active: atoms on a cycle and everything they call
+    below = set(oncycle)
+    for a in oncycle:
+        below |= R(a)
     for h, b, c in rules:
-        if h in oncycle:
+        if h in below:
             for t, a in b:
                 if t == "neg" and (a in oncycle or (R(a) & oncycle)):
                     return True
